@@ -19,6 +19,9 @@ def case(e, ign, mf, mfr, s, f, d):
 
 def corpus():
     return [
+        "progress.seq s0,s0,f0,f0,f0,S1000,T",      # C08k: failures that took 0 ns are failures
+        "progress.seq s5,f0,S1,f0,f0,S1,s7,T",
+        "progress.seq f0,T",
         case(0, 0, 0, 5, 0, 0, 0),      # D6: zero iterations with a rate tolerance
         case(0, 0, 0, 5, 16, 1, 0),     # D7: 5.88 % against 5 %
         case(0, 0, 0, 5, 19, 1, 0),     # exactly 5 %
